@@ -149,6 +149,66 @@ theorem splice_erase (p : UInt8 → Bool) (es : List Elem) (pre : Bytes) :
         rw [encode_cons, encode_cons, ← List.append_assoc, ← List.append_assoc]
         exact this
 
+theorem offsets_append (b : Nat) (a c : List Elem) :
+    offsets b (a ++ c) = offsets b a ++ offsets (b + (encode a).length) c := by
+  induction a generalizing b with
+  | nil => simp [offsets, encode]
+  | cons e t ih =>
+    simp only [List.cons_append, offsets, ih, encode_cons, List.length_append, encodeElem_length]
+    congr 3
+    omega
+
+/-- with no inner empty element in `es`, everything of `es` stays visible when one more element
+is appended -/
+theorem offsets_prefix_visible_append (b : Nat) (es : List Elem) (x : Elem) (h : noInnerEmpty es = true) :
+    offsets b es <+: visible (offsets b (es ++ [x])) := by
+  cases es with
+  | nil => exact List.nil_prefix
+  | cons e t =>
+    simp only [List.cons_append, offsets, visible]
+    apply (List.prefix_cons_inj _).mpr
+    simp only [noInnerEmpty] at h
+    generalize b + 2 + e.body.length = c
+    induction t generalizing c with
+    | nil => exact List.nil_prefix
+    | cons y u ih =>
+      simp only [List.all_cons, Bool.and_eq_true, Bool.not_eq_true', List.isEmpty_eq_false_iff] at h
+      have hy : y.body.length ≠ 0 := fun h0 => h.1 (List.eq_nil_of_length_eq_zero h0)
+      simp only [List.cons_append, offsets, List.takeWhile_cons, hy, ne_eq, not_false_eq_true, decide_true, if_true]
+      exact (List.prefix_cons_inj _).mpr (ih h.2 _)
+
+theorem find_offsets_of_countP (p : UInt8 → Bool) (b : Nat) (es : List Elem) (h : 0 < es.countP (fun e => p e.num)) :
+    ∃ a, (offsets b es).find? (fun a => p a.num) = some a := by
+  induction es generalizing b with
+  | nil => simp at h
+  | cons e t ih =>
+    simp only [offsets, List.find?_cons]
+    by_cases hp : p e.num = true
+    · exact ⟨⟨b, e.num, e.body.length⟩, by simp [hp]⟩
+    · simp only [hp, Bool.false_eq_true]
+      have : 0 < t.countP (fun e => p e.num) := by
+        simp only [List.countP_cons, hp, Bool.false_eq_true, if_false, Nat.add_zero] at h
+        exact h
+      exact ih _ this
+
+theorem eraseP_append_of_countP (p : Elem → Bool) (es : List Elem) (x : Elem) (h : 0 < es.countP p) :
+    (es ++ [x]).eraseP p = es.eraseP p ++ [x] := by
+  induction es with
+  | nil => simp at h
+  | cons e t ih =>
+    by_cases hp : p e = true
+    · simp [List.eraseP_cons, hp]
+    · have : 0 < t.countP p := by
+        simp only [List.countP_cons, hp, Bool.false_eq_true, if_false, Nat.add_zero] at h
+        exact h
+      simp only [List.cons_append, List.eraseP_cons, hp, cond_false, ih this]
+
+theorem eraseP_of_countP_zero (p : Elem → Bool) (es : List Elem) (h : es.countP p = 0) : es.eraseP p = es := by
+  apply List.eraseP_of_forall_not
+  intro a ha hpa
+  have : 0 < es.countP p := List.countP_pos_iff.mpr ⟨a, ha, hpa⟩
+  omega
+
 theorem countP_offsets (p : UInt8 → Bool) (base : Nat) (es : List Elem) :
     (offsets base es).countP (fun a => p a.num) = es.countP (fun e => p e.num) := by
   induction es generalizing base with
